@@ -1070,3 +1070,149 @@ def c11_residuals():
         out.append(struct(oid + '.autofold', s.startswith('op:Div(op:Sub(call:attr:fold(model), data)'), 'model folded against folded data: %s' % s[:100], fn))
         return out
     return go()
+
+
+# ---------------------------------------------------------------- C02/C03/C04: one time step of the time-dependent drivers
+def c02_driver_step(K, frozen=()):
+    """Integration.{one..five}_pops with every parameter a function of time and T - initial_t <= dt (exactly one step):
+       * _compute_dt is called once per population k with (grid differences of axis k, nu_k, [m_kj for j != k], gamma_k, h_k) at the *current* time;
+       * this_dt == T - initial_t; parameters are re-evaluated at next_t == T;
+       * _inject_mutations_KD(phi, this_dt, grids..., theta0(next_t), flags...) comes first;
+       * then, for k = 1..K in order and only if not frozen_k, implicit_KD{axis k}(phi, grids..., nu_k, m_k., gamma_k, h_k [, beta], this_dt, use_delj_trick)
+         with the rates of population k in the kernel's own argument order, each fed the previous kernel's result;
+       * the last result is returned.  (wrapper-side contract of the C kernels verified in C02)"""
+    name = {1: 'one_pop', 2: 'two_pops', 3: 'three_pops', 4: 'four_pops', 5: 'five_pops'}[K]
+    tagf = ''.join(str(k) for k in frozen) or 'none'
+    oid = 'C02/Integration.py:%s/one-step.frozen-%s' % (name, tagf)
+    fn = 'dadi/Integration.py::' + name
+
+    @guarded(oid, fn)
+    def go():
+        from vf import smt
+        sfx = (lambda k: '') if K == 1 else (lambda k: str(k))
+        T, t0 = z3.Reals('T t0')
+        hy = [T > t0]
+        pnames = []
+        kw = {}
+        fsym = {}
+
+        def tf(nm):
+            f_ = uf(nm + '_of_t')
+            fsym[nm] = f_
+            return PyFn(lambda t, _f=f_: _f(to_real(t)), nm + '_f')
+        for k in range(1, K + 1):
+            for base in ('nu', 'gamma', 'h'):
+                kw[base + sfx(k)] = tf(base + sfx(k))
+            for j in range(1, K + 1):
+                if j != k:
+                    nm = 'm%d%d' % (k, j)
+                    kw[nm] = 0 if (k in frozen or j in frozen) else tf(nm)
+            if K > 1:
+                kw['frozen%d' % k] = k in frozen
+            else:
+                kw['frozen'] = False
+        kw['theta0'] = tf('theta0')
+        if K == 1:
+            kw['beta'] = tf('beta')
+        kw['initial_t'] = t0
+        dts = []
+
+        def policy(fr):
+            if fr.qualname == 'ensure_1arg_func':
+                # contract (C15 axiom obligation): ensure_1arg_func(f)(t) == f(t), ensure_1arg_func(c)(t) == c
+                return lambda ex_, f_, a, k_: a[0] if not is_scalar(exact(a[0])) else PyFn(lambda t, _c=a[0]: _c, 'const')
+            if fr.qualname == '_compute_dt':
+                def cdt(ex_, f_, a, k_):
+                    d = ex_.ctx.fresh('dt')
+                    ex_.ctx.pc.append(d >= T - t0)        # the step is not longer than one time step
+                    ex_.ctx.pc.append(d > 0)
+                    dts.append(list(a))
+                    return d
+                return cdt
+            return 'abstract'
+        ex = Executor(policy=policy, max_paths=64)
+        ex.module_overrides[('dadi.Integration', 'cuda_enabled')] = False
+        ex.module_overrides[('dadi.Integration', 'use_delj_trick')] = z3.Bool('use_delj_trick')
+        f = ex.func('dadi/Integration.py', name)
+        phi, xx = Tm('phi'), Tm('xx')
+
+        def thunk(e):
+            del dts[:]
+            return e.apply(f.node, None, f.mod, [phi, xx, T], dict(kw), name), list(dts)
+        paths = ex.explore(thunk, base_pc=hy)
+        rets = [p for p in paths if p.outcome == 'return']
+        out = []
+        if not rets:
+            return [struct(oid, False, 'no returning path: %r' % paths[:2], fn, undecided=True)]
+        axes = 'xyzab'
+        for pi, p in enumerate(rets):
+            o = '%s.path%d' % (oid, pi)
+            res, dtcalls = p.value
+            calls = [(nm, t) for (tag, nm, t) in [e for e in p.log if e[0] == 'call']]
+            inj = [t for nm, t in calls if nm == 'dadi.Integration._inject_mutations_%dD' % K]
+            kern = [(nm, t) for nm, t in calls if 'implicit_' in nm]
+            want_k = [k for k in range(1, K + 1) if k not in frozen]
+            names_ok = [nm.split('implicit_')[1].rstrip(')') for nm, t in kern] == ['%dD%s' % (K, axes[k - 1]) for k in want_k]
+            out.append(struct(o + '.sweep-order', names_ok and len(inj) == 1, 'inject once, then sweeps %s (got %s)' % (['%dD%s' % (K, axes[k - 1]) for k in want_k], [nm for nm, t in kern]), fn,
+                              finding_key='C02/driver/%s/sweeps' % name))
+            if not (names_ok and len(inj) == 1):
+                continue
+            at = lambda nm, tt: fsym[nm](tt)
+            # time step
+            sizes_ok = len(dtcalls) == K
+            out.append(struct(o + '.compute_dt-calls', sizes_ok, '%d _compute_dt calls (one per population)' % len(dtcalls), fn))
+            goals = []
+            if sizes_ok:
+                for k, a in zip(range(1, K + 1), dtcalls):
+                    # a = [d_axis, nu, ms, gamma, h]
+                    goals.append((to_real(a[1]) == at('nu' + sfx(k), t0), '_compute_dt[%d].nu' % k))
+                    goals.append((to_real(a[3]) == at('gamma' + sfx(k), t0), '_compute_dt[%d].gamma' % k))
+                    goals.append((to_real(a[4]) == at('h' + sfx(k), t0), '_compute_dt[%d].h' % k))
+                    ms = a[2].items if isinstance(a[2], VList) else list(a[2])
+                    want_ms = [(at('m%d%d' % (k, j), t0) if not (k in frozen or j in frozen) else z3.RealVal(0)) for j in range(1, K + 1) if j != k] or [z3.RealVal(0)]
+                    if len(ms) != len(want_ms):
+                        goals.append((z3.BoolVal(False), '_compute_dt[%d] gets %d migration rates' % (k, len(ms))))
+                    else:
+                        for x, y in zip(ms, want_ms):
+                            goals.append((to_real(exact(x)) == y, '_compute_dt[%d].ms' % k))
+                    ok_axis = isinstance(a[0], Tm) and 'diff' in a[0].op
+                    if not ok_axis:
+                        goals.append((z3.BoolVal(False), '_compute_dt[%d] grid differences' % k))
+            mm = discharge(goals, p.pc)
+            out.append(struct(o + '.compute_dt-args', mm is None, mm or 'each _compute_dt(d_k, nu_k, [m_kj], gamma_k, h_k) at the current time', fn, finding_key='C03/driver/%s/compute_dt-args' % name))
+            # inject
+            d = dict(zip(inj[0].attrs['__argnames__'], inj[0].args))
+            goals = [(to_real(d['dt']) == T - t0, 'this_dt == T - initial_t'), (to_real(d['theta0']) == at('theta0', T), 'theta0 at next_t')]
+            okf = d['phi'] is not phi and all(d[g] is xx or vrepr(d[g]) == vrepr(d['xx']) for g in GRIDS[:K] if g in d)
+            for k in range(1, K + 1):
+                key = 'frozen%d' % k
+                if key in d and d[key] is not (k in frozen):
+                    okf = False
+            mm = discharge(goals, p.pc)
+            out.append(struct(o + '.inject', mm is None and okf, mm or 'inject(phi_copy, this_dt = T - initial_t, grids, theta0(next_t), flags)', fn, finding_key='C04/driver/%s/inject' % name))
+            # kernels
+            prev = d['phi']
+            for (nm, t), k in zip(kern, want_k):
+                a = list(t.args)
+                pos = [x for x in a if not (isinstance(x, tuple) and x and x[0] == 'kw')]
+                kws = {x[1]: x[2] for x in a if isinstance(x, tuple) and x and x[0] == 'kw'}
+                goals = []
+                ok = pos[0] is prev or vrepr(pos[0]) == vrepr(prev)
+                body = pos[1 + K:]
+                want = [at('nu' + sfx(k), T)] + [(at('m%d%d' % (k, j), T) if not (k in frozen or j in frozen) else z3.RealVal(0)) for j in range(1, K + 1) if j != k] + \
+                       [at('gamma' + sfx(k), T), at('h' + sfx(k), T)] + ([at('beta', T)] if K == 1 else []) + [T - t0]
+                if len(body) < len(want):
+                    goals.append((z3.BoolVal(False), 'kernel %s gets %d scalar arguments' % (nm, len(body))))
+                else:
+                    for x, y, lab in zip(body, want, ['nu'] + ['m'] * (K - 1) + ['gamma', 'h'] + (['beta'] if K == 1 else []) + ['dt']):
+                        goals.append((to_real(exact(x)) == y, 'kernel %dD%s %s' % (K, axes[k - 1], lab)))
+                    delj = body[len(want)] if len(body) > len(want) else kws.get('use_delj_trick')
+                    if not (isinstance(delj, z3.ExprRef) and delj.eq(z3.Bool('use_delj_trick'))):
+                        goals.append((z3.BoolVal(False), 'use_delj_trick forwarded'))
+                mm = discharge(goals, p.pc)
+                out.append(struct('%s.kernel-%dD%s' % (o, K, axes[k - 1]), ok and mm is None, mm or ('fed the previous result; rates of population %d at next_t in the kernel\'s argument order' % k if ok else 'not fed the previous sweep\'s result'), fn,
+                                  finding_key='C02/driver/%s/kernel-%s' % (name, axes[k - 1])))
+                prev = t
+            out.append(struct(o + '.returns-last', res is prev, 'returns the last sweep\'s result', fn))
+        return out
+    return go()
